@@ -1,5 +1,17 @@
 /-
   C36 — property theorems over `XC.C36.onePacket` / local calls / shutdown (model of ssh/mux.go + channel.go).
+
+      mux_total (Proofs/C36)             no panic outcome for any non-empty packet; invariant "listed channels are open"
+      unknown_channel                    error, or (channel request) untouched state + failure reply iff want-reply
+      global_reply_dropped_when_not_pending, localGlobal_drains, gate_localGlobal      global reply gate
+      chan_reply_only_when_pending       CHANNEL_SUCCESS/FAILURE with no request in flight: dropped, state untouched
+      chan_reply_queued_when_pending, chanReq_opens_gate_and_drains, chanReq_forgets_queue, chan_reply_fresh
+                                         channel reply gate: sentRequestMu / gate / drain of the 16-slot msg queue;
+                                         the reply returned is the first one received after the request started
+      dup_confirm_rejected               confirmation for a decided or inbound channel ⇒ protocol error
+      shutdown_closes_all, closed_channel_releases_callers
+      mux_can_block_on_unsolicited       WITNESS: 16 unsolicited messages on an idle channel are absorbed, the 17th
+                                         parks the loop in `default: ch.msg <- msg` for ever (see the note at the end)
 -/
 import XC.Proofs.C36
 set_option maxRecDepth 2000
@@ -123,5 +135,143 @@ example : onePacket Mux.init [94, 0, 0, 0, 5, 0, 0, 0, 0] = some (.err, Mux.init
 
 example : (onePacket { Mux.init with globalPending := true } [81]).map (·.2.1.globalBuf) = some (some .success) := by
   simp [onePacket, Mux.init, decode, decodeBody]
+
+
+
+/-- **chan_reply_only_when_pending**: a CHANNEL_SUCCESS / CHANNEL_FAILURE for a known channel on which no
+    SendRequest(wantReply) is in flight is dropped: no state change, nothing queued, nothing written. -/
+theorem chan_reply_only_when_pending {m : Mux} {id : Nat} {c : Chan} (t : UInt8) (body : Bytes)
+    (ht : t.toNat = 99 ∨ t.toNat = 100) (hid : rdU32 body = some (id, []))
+    (hc : getChan m id = some c) (hnp : c.reqPending = false) :
+    onePacket m (t :: body) = some (.ok, m, []) := by
+  have hlen : body.length = 4 := by
+    match body, hid with
+    | [a, b, c, d], _ => rfl
+  have h5 : ¬ (t :: body).length < 5 := by simp [hlen]
+  rcases ht with ht | ht <;>
+  (simp [onePacket, ht, hid, hc, handleChanPacket, decode, decodeBody, done, hnp]; omega)
+
+/-- …and while one is in flight the reply is queued for it (non-blocking send) -/
+theorem chan_reply_queued_when_pending {m : Mux} {id : Nat} {c : Chan} (body : Bytes)
+    (hid : rdU32 body = some (id, [])) (hc : getChan m id = some c) (hp : c.reqPending = true)
+    (hcl : c.closed = false) (hroom : c.msgQ.length < 16) :
+    onePacket m (99 :: body) = some (.ok, setChan m id (some { c with msgQ := c.msgQ ++ [.success] }), []) := by
+  have hlen : body.length = 4 := by
+    match body, hid with
+    | [a, b, c, d], _ => rfl
+  have h5 : ¬ (99 :: body : Bytes).length < 5 := by simp [hlen]
+  have hr : ¬ c.msgQ.length ≥ 16 := by omega
+  simp [onePacket, show (99 : UInt8).toNat = 99 by rfl, hid, hc, handleChanPacket, decode, decodeBody, done, hp,
+    tryPushMsg, hcl, hr]
+  omega
+
+/-- `SendRequest(wantReply)` takes the request mutex, opens the gate and throws away whatever was still buffered in
+    `ch.msg` before it sends -/
+theorem chanReq_opens_gate_and_drains (c : Chan) (k : Nat) (hd : c.decided = true) (hs : c.sentClose = false) :
+    (chanReqCore c k true).1 = { c with reqPending := true, msgQ := [], requester := some k } := by
+  simp [chanReqCore, hd, hs]
+
+/-- so the outcome of a new request cannot depend on stale queue content -/
+theorem chanReq_forgets_queue (c : Chan) (k : Nat) (q1 q2 : List QMsg) (hd : c.decided = true) :
+    chanReqCore { c with msgQ := q1 } k true = chanReqCore { c with msgQ := q2 } k true := by
+  simp only [chanReqCore, hd]
+  cases c.sentClose <;> simp
+
+/-- **reply matched to the request in flight**: whatever was queued before, the reply a wantReply request returns is
+    the first CHANNEL_SUCCESS / CHANNEL_FAILURE the mux receives after the request was started -/
+theorem chan_reply_fresh (c : Chan) (k : Nat) (stale : List QMsg) (x : QMsg)
+    (hd : c.decided = true) (hs : c.sentClose = false) (hcl : c.closed = false) (hop : c.opener = none) :
+    let c1 := (chanReqCore { c with msgQ := stale } k true).1
+    let c2 := (tryPushMsg c1 x).2
+    (completeChan c2).2.1 =
+      match x with
+      | .success => [s!"R{k}=ok"]
+      | .reqFailure => [s!"R{k}=fail"]
+      | _ => [s!"R{k}=err"] := by
+  simp only [chanReqCore, hd, hs, tryPushMsg, hcl, completeChan, hop]
+  cases x <;> simp
+
+
+
+/-- SSH_MSG_SERVICE_ACCEPT with an empty service name: 5 bytes; read as a channel packet it addresses channel 0 -/
+def svc : Bytes := [6, 0, 0, 0, 0]
+
+/-- the peer opens a channel of type "a" (accepted by the application) -/
+def openA : Bytes := [90, 0, 0, 0, 1, 97, 0, 0, 0, 7, 0, 16, 0, 0, 0, 0, 128, 0]
+
+/-- such a packet always takes `default: ch.msg <- msg` on channel 0 -/
+theorem svc_packet (m : Mux) (c : Chan) (h0 : getChan m 0 = some c) :
+    onePacket m svc = some ((pushMsg c .other).1, setChan m 0 (some (pushMsg c .other).2), []) := by
+  simp [onePacket, svc, rdU32, h0, handleChanPacket, decode, decodeBody, rdStr, done]
+
+/-- feed `n` of them, as long as the mux accepts them -/
+def flood : Nat → Mux → Option Mux
+  | 0, m => some m
+  | n+1, m => match onePacket m svc with
+    | some (.ok, m', _) => flood n m'
+    | _ => none
+
+theorem getChan_setChan_same {m : Mux} {id : Nat} {c c' : Chan} (h : getChan m id = some c) :
+    getChan (setChan m id (some c')) id = some c' := by
+  unfold getChan at h ⊢
+  have hlt : id < m.chans.length := by
+    cases hg : m.chans[id]? with
+    | none => simp [hg] at h
+    | some x => exact (List.getElem?_eq_some_iff.mp hg).1
+  simp [setChan, List.getElem?_set, hlt]
+
+theorem flood_fills (n : Nat) : ∀ (m : Mux) (c : Chan), getChan m 0 = some c → c.closed = false →
+    c.msgQ.length + n ≤ 16 →
+    ∃ m' c', flood n m = some m' ∧ getChan m' 0 = some c' ∧ c'.closed = false ∧
+      c'.msgQ.length = c.msgQ.length + n ∧ c'.opener = c.opener ∧ c'.requester = c.requester := by
+  induction n with
+  | zero => intro m c h0 hc _; exact ⟨m, c, rfl, h0, hc, rfl, rfl, rfl⟩
+  | succ n ih =>
+    intro m c h0 hc hlen
+    have hpush : pushMsg c .other = (.ok, { c with msgQ := c.msgQ ++ [.other] }) := by
+      unfold pushMsg
+      have : ¬ c.msgQ.length ≥ 16 := by omega
+      simp [hc, this]
+    have hstep := svc_packet m c h0
+    rw [hpush] at hstep
+    simp only [flood, hstep]
+    obtain ⟨m', c', hf, hg, hcl, hl, ho, hr⟩ :=
+      ih (setChan m 0 (some { c with msgQ := c.msgQ ++ [.other] })) { c with msgQ := c.msgQ ++ [.other] }
+        (getChan_setChan_same h0) hc (by simp; omega)
+    exact ⟨m', c', hf, hg, hcl, by simp at hl; omega, ho, hr⟩
+
+/-- **mux_can_block_on_unsolicited** (observation O-default-arm, proved on the model of the code as written):
+    after the peer has opened one channel (accepted; nobody waits on its `msg` queue) and sent 16 five-byte
+    SERVICE_ACCEPT packets — all handled without error — a 17th makes `onePacket` never return: the loop goroutine
+    is parked in `ch.msg <- msg`, so no later packet (not even the peer's hang-up) is ever read. -/
+theorem mux_can_block_on_unsolicited :
+    ∃ m0 ev0 m16 mB, onePacket Mux.init openA = some (.ok, m0, ev0) ∧ flood 16 m0 = some m16 ∧
+      onePacket m16 svc = some (.blocks, mB, []) ∧
+      (∃ c, getChan m16 0 = some c ∧ c.opener = none ∧ c.requester = none ∧ c.msgQ.length = 16) := by
+  have hopen : ∃ m0 ev0 c0, onePacket Mux.init openA = some (.ok, m0, ev0) ∧ getChan m0 0 = some c0 ∧
+      c0.closed = false ∧ c0.msgQ = [] ∧ c0.opener = none ∧ c0.requester = none := by
+    simp [onePacket, openA, decode, decodeBody, rdStr, rdU32, rdBool, Mux.init, addChan, newChan, chanSend, setChan,
+      getChan, C35.minPacketLength]
+  obtain ⟨m0, ev0, c0, ho, hg0, hc0, hq0, hop0, hrq0⟩ := hopen
+  obtain ⟨m16, c16, hf, hg, hcl, hl, hop, hrq⟩ := flood_fills 16 m0 c0 hg0 hc0 (by simp [hq0])
+  have hblk : pushMsg c16 .other = (.blocks, c16) := by
+    unfold pushMsg
+    have : c16.msgQ.length ≥ 16 := by rw [hl, hq0]; simp
+    simp [hcl, this]
+  refine ⟨m0, ev0, m16, setChan m16 0 (some c16), ho, hf, ?_, c16, hg, by rw [hop, hop0], by rw [hrq, hrq0],
+    by rw [hl, hq0]; rfl⟩
+  rw [svc_packet m16 c16 hg, hblk]
+
+
+/-! ## Does the blocked loop contradict a clause of C36?
+    "never panic", "unknown channel ⇒ error / failure reply", "reply only to a waiting request" and "duplicate
+    confirmation rejected" are untouched by it (mux_total covers the `blocks` outcome: it is not a panic).
+    The last clause — "when the connection ends every channel and request stream is closed" — presupposes that the
+    loop notices the end of the connection. In the state of `mux_can_block_on_unsolicited` it cannot: `shutdown` is
+    only ever applied after `onePacket` RETURNS an error, and `Outcome.blocks` is the outcome in which `onePacket`
+    does not return. The correspondence check confirms the consequence on the real code (trace
+    `…|BLOCKED|STUCK,shut=bad:loop-never-exits`: after the peer's hang-up mux.Wait does not return and channel reads
+    stay blocked), so the clause IS violated on this input; it is registered as known finding
+    mux-blocked-by-unsolicited-channel-messages. -/
 
 end XC.C36
